@@ -26,7 +26,8 @@ CLAIMED = {
          'pipeline with symbolic payloads in every fragmentation, byte-at-a-time, incl. fail-fast timing.'),
  'C14': ('model_checking', '3 (C14)',
          'Receive sweep with auto_pong symbolic on/off and symbolic write faults: k-th Pong payload term == k-th Ping payload term, written before the Ping event '
-         'is handed to the application, none with auto_pong off, failed Pong writes leave the event stream undisturbed.'),
+         'is handed to the application, none with auto_pong off, failed Pong writes leave the event stream undisturbed; plus (deterministic scheduler, schedule = solver variables) the real '
+         'event loop receiving a Ping while another thread is anywhere inside send_text (also holding the write lock in the middle of its sendall): exactly one matching Pong.'),
  'C02': ('model_checking', '3 (C02)',
          'Metamorphic inside one path: the same symbolic server stream (handshake reply ++ symbolic frame bytes / fragmentation templates / a 16 KiB burst) is run on two '
          'fresh WebSocket objects, once in one read and once cut at solver-chosen positions (all cut sets, byte-at-a-time, cuts inside the HTTP reply, reply joined with '
@@ -53,7 +54,8 @@ CLAIMED = {
  'C10': ('model_checking', '3 (C10)',
          'Request: os.urandom(16) is 16 symbolic bytes; build_request() parsed by an independent reader, key header base64-DEcoded by a reference decoder must equal the drawn bytes '
          '(all 2^128 keys), per-attempt freshness over 3 connects. Reply: structural templates x symbolic holes (3 status bytes, Upgrade value, 28-byte Accept value, header-name case); '
-         'Ready <=> 101 and websocket and accept == b64(D(key)) exactly, sha1 uninterpreted; 16 KiB header bound with a symbolic length window and cut.'),
+         'Ready <=> 101 and websocket and accept == b64(D(key)) exactly, sha1 uninterpreted; 16 KiB header bound with a symbolic length window and cut; and one of the three '
+         'decisive tokens as an over-long hole of arbitrary bytes >= 0x21 (all non-ASCII bytes, i.e. Unicode digits / case-folding look-alikes / Unicode white space in UTF-8): never Ready.'),
  'C17': ('model_checking', '3 (C17)',
          'Two connects on one object inside one path (symbolic bytes + solver-chosen abnormal ending, then valid handshake + symbolic bytes) compared against a fresh object fed the '
          'same symbolic bytes: identical branching, events, payload terms, decoded frames; public state at Connecting is initial; new key.'),
@@ -87,7 +89,8 @@ CLAIMED = {
  'C12': ('model_checking', '3 (C12), 6',
          'Same scheduler harness with threads running close(), a second close(), send_*, the loop-side server-Close echo (_on_close), _send_pong and _check_auto_ping: <=1 Close frame, no data '
          'frame after it, every call returns or raises a WebSocketError subclass, a send that raised wrote nothing. Violations are keyed by what the late writer saw when it took the '
-         'write lock (closing flag / Close already on the wire), which separates the known window in close() from any new race.'),
+         'write lock (closing flag / Close already on the wire / which close path was in progress), so that distinct races have distinct signatures; also with permessage-deflate '
+         'negotiated (compressed send path). The two races this check found in close()/_on_close have been repaired in /repo; no finding is open.'),
 }
 
 REPLAY = './vcheck {prop} --replay {{path}}'
